@@ -218,13 +218,13 @@ def run(chk):
         hs += [l.strip() for l in open(corpus) if l.strip() and not l.startswith('#')]
     ncorpus = len(hs)
     ex = exhaustive(4 if quick else 6)
-    hs += ex
     rng = chk.rng('hist')
     if quick:  # a seeded sample of the length-5/6 part of the exhaustive space
         for _ in range(12000):
             t = [rng.choice(EXH_ALPHABET) for _ in range(rng.choice([5, 6]))]
             t[-1] = rng.choice(['K 0 i', 'K 3 i', 'K 3 g', 'L i0 i1', 'L e0 F0'])
             ex.append(' ; '.join(t))
+    hs += ex
     nrand = 12000 if quick else 150000
     for i in range(nrand):
         hs.append(gen_history(rng, rng.choice([2, 4, 6, 9, 14]), gen_share=0.25 if quick else 0.4))
